@@ -15,6 +15,7 @@ By `decide` on the tables regenerated from the source at every run:
 * `T_C19_wrapped_partial` + `T_C19_wrapped_counterexample`  what holds and what does not for `WrappedDisk`.
 -/
 import CBV.Lemmas.C19
+import CBV.Lemmas.C19Geo
 
 namespace CBV.C19
 
@@ -248,6 +249,388 @@ theorem T_C19_delete_copy (nx ny nz i j k : Nat) (which : Bool) (hi : i < nx) (h
   · intro o
     simp [List.mem_filter]
 
+
+/-! ### round 6 — every sketch and transformation; where the cells are (ℚ); slices partition the stack; `Stack.chop` -/
+
+/-- `TransformedStack(base, τ, n)` (also behind `ExtrudedStack`, `RevolvedStack`) for ANY sketch (`base.grid = g`, cartesian or
+    round), ANY transformation τ and any number of tiers: `stack.grid[k][i][j]` is the loft from the k-fold image of
+    `base.grid[i][j]` to its (k+1)-fold image — in particular the top face of tier k is the bottom face of tier k+1 -/
+theorem T_C19_tstack {α : Type} (τ : α → α) (n : Nat) (g : List (List α)) :
+    ∃ S, tstack τ n g = some S ∧ S.length = n ∧
+      ∀ k i j : Nat, k < n → ((S[k]?).bind (·[i]?)).bind (·[j]?) =
+        ((g[i]?).bind (·[j]?)).map (fun f => (τ^[k] f, τ^[k + 1] f)) := by
+  refine ⟨_, tstack_eq τ n g, by simp, ?_⟩
+  intro k i j hk
+  simp only [List.getElem?_map, List.getElem?_range hk, Option.map_some, Option.bind_some, ttier]
+  cases g[i]? with
+  | none => rfl
+  | some row => simp only [Option.map_some, Option.bind_some, List.getElem?_map]
+
+/-- non-vacuity: a sketch with rows of different lengths (a disk: 1 core face, 2 shell faces), 3 tiers -/
+example : ((tstack (· + 10) 3 [[0], [1, 2]]).bind (·[2]?)).bind (·[1]?) = some [(21, 31), (22, 32)] := by decide
+
+/-- the point of the lattice at parameters (a / nx, b / ny) between `point_1` and `point_2` -/
+def latticePt (g : GridArgs) (a b : Nat) : V3 :=
+  ⟨g.x0 + ((a : Rat) / (g.nx : Rat)) * (g.x1 - g.x0), g.y0 + ((b : Rat) / (g.ny : Rat)) * (g.y1 - g.y0), 0⟩
+
+/-- `Grid(point_1, point_2, nx, ny)`, all sizes and corner points: the face `grid[j][i]` has the corner points at the
+    parameters (i/nx, j/ny), ((i+1)/nx, j/ny), ((i+1)/nx, (j+1)/ny), (i/nx, (j+1)/ny) of the rectangle — it *is* column i, row j;
+    the lattice starts in `point_1` and ends in `point_2` -/
+theorem T_C19_grid_geometry (g : GridArgs) (i j : Nat) (hi : i < g.nx) (hj : j < g.ny) :
+    ((gridFaces g)[j]?).bind (·[i]?) =
+      some [latticePt g i j, latticePt g (i + 1) j, latticePt g (i + 1) (j + 1), latticePt g i (j + 1)] ∧
+    latticePt g 0 0 = ⟨g.x0, g.y0, 0⟩ ∧ latticePt g g.nx g.ny = ⟨g.x1, g.y1, 0⟩ := by
+  have hx : 0 < g.nx := by omega
+  have hy : 0 < g.ny := by omega
+  have hxq : (g.nx : Rat) ≠ 0 := by exact_mod_cast (Nat.pos_iff_ne_zero.mp hx)
+  have hyq : (g.ny : Rat) ≠ 0 := by exact_mod_cast (Nat.pos_iff_ne_zero.mp hy)
+  refine ⟨?_, ?_, ?_⟩
+  · simp only [gridFaces, gridSketch_eq, List.getElem?_map, List.getElem?_range hj, List.getElem?_range hi, Option.map_some,
+      Option.bind_some, facePts, Face3.nodes, List.map_cons, List.map_nil, nodePos, latticePt]
+    rw [linspace_eq g.x0 g.x1 g.nx i hx (by omega), linspace_eq g.x0 g.x1 g.nx (i + 1) hx (by omega),
+      linspace_eq g.y0 g.y1 g.ny j hy (by omega), linspace_eq g.y0 g.y1 g.ny (j + 1) hy (by omega)]
+  · simp [latticePt]
+  · simp only [latticePt, div_self hxq, div_self hyq]
+    apply V3.ext' <;> simp
+
+/-- non-vacuity: a 2 x 5 grid between (0, 0) and (1, 10): cell (1, 4) -/
+example : ((gridFaces ⟨0, 0, 1, 10, 2, 5⟩)[4]?).bind (·[1]?) =
+    some [⟨1/2, 8, 0⟩, ⟨1, 8, 0⟩, ⟨1, 10, 0⟩, ⟨1/2, 10, 0⟩] := by decide +kernel
+
+/-- cells are where their index says: with `point_1` left of / below `point_2` the lattice coordinates grow strictly with the
+    index, so column i lies left of column i' for i < i' (and the same for rows); for ANY two different corner points with
+    different x and y the first corner identifies the cell (what the harness uses to recognise a face by position) -/
+theorem T_C19_grid_cells_ordered (g : GridArgs) (i i' j j' : Nat) (hi : i' ≤ g.nx) (hj : j' ≤ g.ny) :
+    (g.x0 < g.x1 → i < i' → (nodePos g (i, j)).x < (nodePos g (i', j)).x) ∧
+    (g.y0 < g.y1 → j < j' → (nodePos g (i, j)).y < (nodePos g (i, j')).y) ∧
+    (g.x0 ≠ g.x1 → g.y0 ≠ g.y1 → i ≤ g.nx → j ≤ g.ny → nodePos g (i, j) = nodePos g (i', j') → i = i' ∧ j = j') := by
+  refine ⟨fun h hii => linspace_lt _ _ _ _ _ h hii hi, fun h hjj => linspace_lt _ _ _ _ _ h hjj hj, ?_⟩
+  intro hx hy hi0 hj0 h
+  simp only [nodePos, V3.mk.injEq] at h
+  exact ⟨linspace_inj _ _ _ _ _ hx hi0 hi h.1, linspace_inj _ _ _ _ _ hy hj0 hj h.2.1⟩
+
+/-- `ExtrudedStack(Grid(…), amount, nz)`, all sizes, corner points and amounts: the operation `grid[k][j][i]` has the points of
+    cell (i, j) moved by `k/nz · amount` as bottom face and by `(k+1)/nz · amount` as top face: tier k is the k-th of nz equal
+    steps along the extrusion, and the top of the last tier is the base moved by the whole amount -/
+theorem T_C19_extruded_geometry (g : GridArgs) (v : V3) (nz i j k : Nat) (hi : i < g.nx) (hj : j < g.ny) (hk : k < nz) :
+    ∃ S, extrudedStack g v nz = some S ∧ S.length = nz ∧
+      ((S[k]?).bind (·[j]?)).bind (·[i]?) =
+        some ((facePts g ⟨i, j, 0⟩).map (· + V3.smul ((k : Rat) / (nz : Rat)) v),
+              (facePts g ⟨i, j, 0⟩).map (· + V3.smul (((k + 1 : Nat) : Rat) / (nz : Rat)) v)) ∧
+      (k + 1 = nz → (facePts g ⟨i, j, 0⟩).map (· + V3.smul (((k + 1 : Nat) : Rat) / (nz : Rat)) v)
+        = (facePts g ⟨i, j, 0⟩).map (· + v)) := by
+  have hz : (nz : Rat) ≠ 0 := by
+    have : 0 < nz := by omega
+    exact_mod_cast (Nat.pos_iff_ne_zero.mp this)
+  refine ⟨_, tstack_eq _ nz (gridFaces g), by simp, ?_, ?_⟩
+  · simp only [List.getElem?_map, List.getElem?_range hk, Option.map_some, Option.bind_some, ttier, gridFaces, gridSketch_eq,
+      List.getElem?_range hj, List.getElem?_range hi, iterate_translate]
+    congr 2
+    · apply List.map_congr_left
+      intro p _
+      apply V3.ext' <;> simp <;> ring
+    · apply List.map_congr_left
+      intro p _
+      apply V3.ext' <;> simp <;> ring
+  · intro h
+    apply List.map_congr_left
+    intro p _
+    rw [h, div_self hz]
+    apply V3.ext' <;> simp
+
+/-- non-vacuity: one cell, two tiers, 3 up: the second tier goes from height 3/2 to 3 -/
+example : (((extrudedStack ⟨0, 0, 1, 1, 1, 1⟩ ⟨0, 0, 3⟩ 2).bind (·[1]?)).bind (·[0]?)).bind (·[0]?) =
+    some ([⟨0, 0, 3/2⟩, ⟨1, 0, 3/2⟩, ⟨1, 1, 3/2⟩, ⟨0, 1, 3/2⟩], [⟨0, 0, 3⟩, ⟨1, 0, 3⟩, ⟨1, 1, 3⟩, ⟨0, 1, 3⟩]) := by
+  decide +kernel
+
+/-- the closed form of `get_slice(a, idx)` -/
+def sliceCells (nx ny nz a idx : Nat) : List Loft :=
+  if a = 0 then (List.range nz).flatMap (fun k => (List.range ny).map (fun j => cell idx j k))
+  else if a = 1 then (List.range nz).flatMap (fun k => (List.range nx).map (fun i => cell i idx k))
+  else (List.range ny).flatMap (fun j => (List.range nx).map (fun i => cell i j idx))
+
+/-- the slices along an axis partition the stack: for a ∈ {0, 1, 2} the slices `get_slice(a, 0) … get_slice(a, size − 1)`
+    put one after the other are a permutation of `stack.operations`, and each slice has ny·nz / nx·nz / nx·ny operations -/
+theorem T_C19_slices_partition (nx ny nz a : Nat) (ha : a ≤ 2) :
+    ∃ G, stackGrid nx ny nz = some G ∧
+      (∀ idx, idx < dim nx ny nz a → getSlice G a idx = some (sliceCells nx ny nz a idx) ∧
+        (sliceCells nx ny nz a idx).length = (if a = 0 then nz * ny else if a = 1 then nz * nx else ny * nx)) ∧
+      ((List.range (dim nx ny nz a)).flatMap (sliceCells nx ny nz a)).Perm (stackOps G) := by
+  refine ⟨_, stackGrid_eq nx ny nz, ?_, ?_⟩
+  · intro idx hidx
+    have h3 : a = 0 ∨ a = 1 ∨ a = 2 := by omega
+    rcases h3 with rfl | rfl | rfl
+    · simp only [dim, if_true] at hidx
+      exact ⟨by simpa [sliceCells] using slice0_eq nx ny nz idx hidx, by simp [sliceCells, List.length_flatMap]⟩
+    · simp only [dim, show ¬ (1 : Nat) = 0 by decide, if_false, if_true] at hidx
+      exact ⟨by simpa [sliceCells] using slice1_eq nx ny nz idx hidx, by simp [sliceCells, List.length_flatMap]⟩
+    · simp only [dim, show ¬ (2 : Nat) = 0 by decide, show ¬ (2 : Nat) = 1 by decide, if_false] at hidx
+      exact ⟨by simpa [sliceCells] using slice2_eq nx ny nz idx hidx, by simp [sliceCells, List.length_flatMap]⟩
+  · have hmem : ∀ c, c ∈ (List.range (dim nx ny nz a)).flatMap (sliceCells nx ny nz a) ↔
+        c ∈ stackOps ((List.range nz).map (tier nx ny)) := by
+      intro c
+      rw [mem_stackOps]
+      have h3 : a = 0 ∨ a = 1 ∨ a = 2 := by omega
+      rcases h3 with rfl | rfl | rfl
+      · simp only [dim, sliceCells, if_true, List.mem_flatMap, List.mem_map, List.mem_range]
+        constructor
+        · rintro ⟨i, hi, k, hk, j, hj, rfl⟩; exact ⟨i, j, k, hi, hj, hk, rfl⟩
+        · rintro ⟨i, j, k, hi, hj, hk, rfl⟩; exact ⟨i, hi, k, hk, j, hj, rfl⟩
+      · simp only [dim, sliceCells, show ¬ (1 : Nat) = 0 by decide, if_false, if_true, List.mem_flatMap, List.mem_map,
+          List.mem_range]
+        constructor
+        · rintro ⟨j, hj, k, hk, i, hi, rfl⟩; exact ⟨i, j, k, hi, hj, hk, rfl⟩
+        · rintro ⟨i, j, k, hi, hj, hk, rfl⟩; exact ⟨j, hj, k, hk, i, hi, rfl⟩
+      · simp only [dim, sliceCells, show ¬ (2 : Nat) = 0 by decide, show ¬ (2 : Nat) = 1 by decide, if_false,
+          List.mem_flatMap, List.mem_map, List.mem_range]
+        constructor
+        · rintro ⟨k, hk, j, hj, i, hi, rfl⟩; exact ⟨i, j, k, hi, hj, hk, rfl⟩
+        · rintro ⟨i, j, k, hi, hj, hk, rfl⟩; exact ⟨k, hk, j, hj, i, hi, rfl⟩
+    refine (List.perm_ext_iff_of_nodup ?_ (stackOps_nodup nx ny nz)).mpr hmem
+    apply nodup_flatMap_range
+    · intro idx
+      have h3 : a = 0 ∨ a = 1 ∨ a = 2 := by omega
+      rcases h3 with rfl | rfl | rfl
+      · simp only [sliceCells, if_true]
+        apply nodup_flatMap_range
+        · intro k; apply nodup_map_range; intro x y h; exact (cell_inj _ _ _ _ _ _ h).2.1
+        · intro x y hxy c hc hc'
+          simp only [List.mem_map, List.mem_range] at hc hc'
+          obtain ⟨j, _, rfl⟩ := hc
+          obtain ⟨j', _, h⟩ := hc'
+          exact hxy (cell_inj _ _ _ _ _ _ h).2.2.symm
+      · simp only [sliceCells, show ¬ (1 : Nat) = 0 by decide, if_false, if_true]
+        apply nodup_flatMap_range
+        · intro k; apply nodup_map_range; intro x y h; exact (cell_inj _ _ _ _ _ _ h).1
+        · intro x y hxy c hc hc'
+          simp only [List.mem_map, List.mem_range] at hc hc'
+          obtain ⟨i, _, rfl⟩ := hc
+          obtain ⟨i', _, h⟩ := hc'
+          exact hxy (cell_inj _ _ _ _ _ _ h).2.2.symm
+      · simp only [sliceCells, show ¬ (2 : Nat) = 0 by decide, show ¬ (2 : Nat) = 1 by decide, if_false]
+        apply nodup_flatMap_range
+        · intro j; apply nodup_map_range; intro x y h; exact (cell_inj _ _ _ _ _ _ h).1
+        · intro x y hxy c hc hc'
+          simp only [List.mem_map, List.mem_range] at hc hc'
+          obtain ⟨i, _, rfl⟩ := hc
+          obtain ⟨i', _, h⟩ := hc'
+          exact hxy (cell_inj _ _ _ _ _ _ h).2.1.symm
+    · intro x y hxy c hc hc'
+      have h3 : a = 0 ∨ a = 1 ∨ a = 2 := by omega
+      rcases h3 with rfl | rfl | rfl
+      · simp only [sliceCells, if_true, List.mem_flatMap, List.mem_map, List.mem_range] at hc hc'
+        obtain ⟨k, _, j, _, rfl⟩ := hc
+        obtain ⟨k', _, j', _, h⟩ := hc'
+        exact hxy (cell_inj _ _ _ _ _ _ h).1.symm
+      · simp only [sliceCells, show ¬ (1 : Nat) = 0 by decide, if_false, if_true, List.mem_flatMap, List.mem_map,
+          List.mem_range] at hc hc'
+        obtain ⟨k, _, i, _, rfl⟩ := hc
+        obtain ⟨k', _, i', _, h⟩ := hc'
+        exact hxy (cell_inj _ _ _ _ _ _ h).2.1.symm
+      · simp only [sliceCells, show ¬ (2 : Nat) = 0 by decide, show ¬ (2 : Nat) = 1 by decide, if_false, List.mem_flatMap,
+          List.mem_map, List.mem_range] at hc hc'
+        obtain ⟨j, _, i, _, rfl⟩ := hc
+        obtain ⟨j', _, i', _, h⟩ := hc'
+        exact hxy (cell_inj _ _ _ _ _ _ h).2.2.symm
+
+/-- `Stack.chop(…)` on a stack of an nx × ny grid (nx, ny > 0) with nz tiers: the operations that receive the axis-2 chop are
+    `grid[k][0][0]`, k = 0 … nz−1 — one in every tier, all different, none missed -/
+theorem T_C19_stack_chop (nx ny nz : Nat) (hx : 0 < nx) (hy : 0 < ny) :
+    ∃ G L, stackGrid nx ny nz = some G ∧ stackChop G = some L ∧ L.Nodup ∧ L.length = nz ∧
+      (∀ c ∈ L, c ∈ stackOps G) ∧
+      ∀ k, k < nz → L.filter (fun c => coord 2 c = k) = [cell 0 0 k] := by
+  refine ⟨_, _, stackGrid_eq nx ny nz, stackChop_eq nx ny nz hx hy, ?_, by simp, ?_, ?_⟩
+  · apply nodup_map_range; intro a b h; exact (cell_inj _ _ _ _ _ _ h).2.2
+  · intro c hc
+    simp only [List.mem_map, List.mem_range] at hc
+    obtain ⟨k, hk, rfl⟩ := hc
+    rw [mem_stackOps]; exact ⟨0, 0, k, hx, hy, hk, rfl⟩
+  · intro k hk
+    rw [List.filter_map]
+    have : (List.range nz).filter ((fun c => decide (coord 2 c = k)) ∘ fun k => cell 0 0 k) = [k] := by
+      have h1 : ((fun c => decide (coord 2 c = k)) ∘ fun k => cell 0 0 k) = fun x => decide (x = k) := by
+        funext x; simp [coord, cell]
+      rw [h1]
+      induction nz with
+      | zero => omega
+      | succ n ih =>
+        rw [List.range_succ, List.filter_append]
+        by_cases hkn : k < n
+        · rw [ih hkn]; simp; omega
+        · have : k = n := by omega
+          subst this
+          have : (List.range k).filter (fun x => decide (x = k)) = [] := by
+            rw [List.filter_eq_nil_iff]; intro a ha; simp only [List.mem_range] at ha; simp; omega
+          rw [this]; simp
+    rw [this]; rfl
+
+/-- the rejecting branch: a stack of a sketch without faces in its first row has no `grid[0][0]` (IndexError) -/
+theorem T_C19_stack_chop_reject (nx ny nz : Nat) (hz : 0 < nz) (h0 : nx = 0 ∨ ny = 0) :
+    ∃ G, stackGrid nx ny nz = some G ∧ stackChop G = none :=
+  ⟨_, stackGrid_eq nx ny nz, stackChop_reject nx ny nz hz h0⟩
+
+/-- non-vacuity: 2 x 5 x 3 — three operations are chopped, the first of every tier -/
+example : (stackGrid 2 5 3).bind stackChop = some [cell 0 0 0, cell 0 0 1, cell 0 0 2] := by decide
+
+
+/-! ### round 6 — the model computes from what the source says (tables regenerated with `ast` at every run) -/
+
+/-- `Stack.get_slice`: its branches as regenerated from the source (`CBV.Gen.c19SliceSpec`: the axis tested, the element
+    expression of the comprehension, what is iterated), interpreted, are the model's `getSlice` on every stack, axis, index -/
+theorem T_C19_tie_get_slice {β : Type} (G : List (List (List β))) (a idx : Nat) :
+    getSliceBy CBV.Gen.c19SliceSpec G a idx = getSlice G a idx := by
+  by_cases h2 : a = 2
+  · subst h2; rfl
+  by_cases h0 : a = 0
+  · subst h0; rfl
+  have hb : sliceBranch CBV.Gen.c19SliceSpec a = some ["shape.grid[index][loop]", "range(len(shape.grid[index]))"] := by
+    have e2 : ((2 : Nat) == a) = false := by simpa using Ne.symm h2
+    have e0 : ((0 : Nat) == a) = false := by simpa using Ne.symm h0
+    by_cases h99 : a = 99
+    · subst h99; rfl
+    · have e99 : ((99 : Nat) == a) = false := by simpa using Ne.symm h99
+      simp [sliceBranch, CBV.Gen.c19SliceSpec, List.find?, e2, e0, e99]
+  simp only [getSliceBy, hb, getSlice, if_neg h2, if_neg h0]
+  rfl
+
+/-- `Stack.chop` as regenerated from the source is the model's `stackChop`, and the chop is along the stack (axis 2) -/
+theorem T_C19_tie_stack_chop {β : Type} (G : List (List (List β))) :
+    stackChopBy CBV.Gen.c19StackChop G = (stackChop G).map (·, 2) := rfl
+
+/-- `Grid.__init__`: the outer loop runs over the rows (`iy`, `count_2`), the inner one over the columns (`ix`, `count_1`) —
+    the order of `gridSketch`; `coords_1` are the x and `coords_2` the y coordinates with `count + 1` entries — `nodePos`; the four
+    points of the face made for `(ix, iy)` are `Face3.nodes` -/
+theorem T_C19_tie_grid_init :
+    CBV.Gen.c19GridLoops = [("iy", "count_2"), ("ix", "count_1")] ∧
+    CBV.Gen.c19GridCoords = [("coords_1", 0, "count_1"), ("coords_2", 1, "count_2")] ∧
+    CBV.Gen.c19GridPoints.all (fun p => p.1.1 == "coords_1" && p.1.2.1 == "ix" && p.2.1 == "coords_2" && p.2.2.1 == "iy") = true ∧
+    ∀ ix iy l, (⟨ix, iy, l⟩ : Face3).nodes = CBV.Gen.c19GridPoints.map (fun p => (ix + p.1.2.2, iy + p.2.2.2)) :=
+  ⟨by decide, by decide, by decide, fun _ _ _ => rfl⟩
+
+/-- the one-line properties the model takes literally -/
+def modelledReturns : List (String × String) :=
+  [("RoundSolidShape.core", "self.operations[:len(self.sketch_1.core)]"),   -- `coreShell`, `T_C19_core_shell_split`
+   ("RoundSolidShape.shell", "self.operations[len(self.sketch_1.core):]"),
+   ("RoundHollowShape.shell", "self.operations"),                           -- `T_C19_annulus`
+   ("LoftedShape.operations", "f.flatten_2d_list(self.lofts)"),             -- `operations`
+   ("LoftedShape.grid", "self.lofts"),                                      -- `loftedGrid`
+   ("Stack.grid", "[shape.grid for shape in self.shapes]"),                 -- `stackGrid`
+   ("Stack.operations", "f.flatten_2d_list([shape.operations for shape in self.shapes])"),  -- `stackOps`
+   ("Annulus.faces", "self.shell"), ("MappedSketch.faces", "self._faces"), ("Grid.faces", "f.flatten_2d_list(self.grid)")]
+
+theorem T_C19_tie_returns :
+    modelledReturns.all (fun m => (lookup m.1 CBV.Gen.c19Returns).map (·.2) == some m.2) = true := by decide
+
+/-- what the model computes from the source text of a sketch class (`quad_map`, merges, the `grid` expression, `core`, `shell`)
+    is what the probe instance of that class shows: number of faces, the faces (classes with their own `quad_map`), grid, core, shell -/
+def srcMatchesTable (r : SketchRow) : Bool :=
+  match sketchFromSource r.1 with
+  | some s => s.n == r.2.1.length && s.grid == r.2.2.1 && s.core == r.2.2.2.1 && s.shell == r.2.2.2.2.1 &&
+      (match lookup r.1 CBV.Gen.c19QuadMaps with
+        | some q => canonCells q == r.2.1
+        | none => true)
+  | none => false
+
+theorem T_C19_sketch_from_source :
+    (CBV.Gen.c19Sketches.filter (fun r => (lookup r.1 CBV.Gen.c19GridSpecs).isSome)).all srcMatchesTable = true := by
+  decide +kernel
+
+/-- non-vacuity: the twelve classes with a fixed topology are in both tables -/
+example : (CBV.Gen.c19Sketches.filter (fun r => (lookup r.1 CBV.Gen.c19GridSpecs).isSome)).length = 12 := by decide +kernel
+
+/-- a prefix split `[faces[:c], faces[c:]]` (OneCoreDisk, HalfDisk, FourCoreDisk, Oval; with c = 1 also `[[faces[0]], faces[1:]]` of
+    QuarterDisk / QuarterSplineDisk) for ANY number of faces n ≥ c: the first row holds the faces 0 … c−1, the second c … n−1, and
+    the flattened grid is the list of faces in order (so `shape.operations[k]` is made of `faces[k]`) -/
+theorem T_C19_split_grid (n c : Nat) (hc : c ≤ n) :
+    evalGrid n [(0, 0, c + 1, 1), (0, c, 0, 1)] = some [List.range c, List.range' c (n - c)] ∧
+    operations [List.range c, List.range' c (n - c)] = List.range n ∧
+    (0 < n → evalRow n (1, 0, 0, 0) = evalRow n (0, 0, 2, 1)) := by
+  have hsplit : List.range n = List.range' 0 c ++ List.range' c (n - c) := by
+    have h := @List.range'_append_1 0 c (n - c)
+    simp only [Nat.zero_add] at h
+    rw [List.range_eq_range', h]; congr 1; omega
+  refine ⟨?_, ?_, ?_⟩
+  · have r1 : evalRow n (0, 0, c + 1, 1) = some (List.range c) := by
+      simp only [evalRow, if_true, sliceIdx]
+      simp only [show ¬ ((1 : Nat) = 0) by decide, if_false, show ¬ (c + 1 = 0) by omega, Nat.add_sub_cancel]
+      congr 1
+      rw [hsplit, List.filter_append, List.range_eq_range']
+      have h1 : (List.range' 0 c).filter (fun i => decide (0 ≤ i) && decide (i < c) && (i - 0) % 1 == 0) = List.range' 0 c := by
+        rw [List.filter_eq_self]; intro a ha; simp only [List.mem_range'_1] at ha; simp; omega
+      have h2 : (List.range' c (n - c)).filter (fun i => decide (0 ≤ i) && decide (i < c) && (i - 0) % 1 == 0) = [] := by
+        rw [List.filter_eq_nil_iff]; intro a ha; simp only [List.mem_range'_1] at ha; simp; omega
+      rw [h1, h2]; simp
+    have r2 : evalRow n (0, c, 0, 1) = some (List.range' c (n - c)) := by
+      simp only [evalRow, if_true, sliceIdx]
+      simp only [show ¬ ((1 : Nat) = 0) by decide, if_false]
+      congr 1
+      rw [hsplit, List.filter_append]
+      have h1 : (List.range' 0 c).filter (fun i => decide (c ≤ i) && true && (i - c) % 1 == 0) = [] := by
+        rw [List.filter_eq_nil_iff]; intro a ha; simp only [List.mem_range'_1] at ha; simp; omega
+      have h2 : (List.range' c (n - c)).filter (fun i => decide (c ≤ i) && true && (i - c) % 1 == 0) = List.range' c (n - c) := by
+        rw [List.filter_eq_self]; intro a ha; simp only [List.mem_range'_1] at ha; simp; omega
+      rw [h1, h2]; simp
+    simp [evalGrid, allSome, r1, r2]
+  · rw [hsplit, List.range_eq_range']; simp [operations]
+  · intro hn
+    have key : ∀ p : Nat → Bool, p 0 = true → (∀ i, p (i + 1) = false) → (List.range n).filter p = [0] := by
+      intro p h0 hs
+      obtain ⟨m, rfl⟩ : ∃ m, n = m + 1 := ⟨n - 1, by omega⟩
+      rw [List.range_succ_eq_map, List.filter_cons, if_pos h0, List.filter_map]
+      have : (List.range m).filter (p ∘ Nat.succ) = [] := by
+        rw [List.filter_eq_nil_iff]; intro a _; simp [hs a]
+      rw [this]; rfl
+    have e1 : evalRow n (1, 0, 0, 0) = some [0] := by simp [evalRow, hn]
+    have e2 : evalRow n (0, 0, 2, 1) = some [0] := by
+      simp only [evalRow, if_true, sliceIdx, show ¬ ((1 : Nat) = 0) by decide, show ¬ ((2 : Nat) = 0) by decide, if_false]
+      congr 1
+      apply key
+      · rfl
+      · intro i; simp
+    rw [e1, e2]
+
+/-- non-vacuity: FourCoreDisk's expression on its 12 faces -/
+example : evalGrid 12 [(0, 0, 5, 1), (0, 4, 0, 1)] = some [[0, 1, 2, 3], [4, 5, 6, 7, 8, 9, 10, 11]] := by decide
+
+/-- the split of the spline disks `[faces[::3], [face for i, face in enumerate(faces) if not i % 3 == 0]]` for ANY number of faces
+    (Half: 6, full: 12, and every further merge of quarters): the two rows are duplicate free, every face is in exactly one of them,
+    the first row holds exactly the faces with index ≡ 0 (mod 3) — `merge` appends the three faces of a quarter (core, shell, shell)
+    block by block, so these are the core faces of the quarters — and the second the others -/
+theorem T_C19_mod3_grid (n : Nat) :
+    ∃ r0 r1, evalGrid n [(0, 0, 0, 3), (2, 3, 0, 0)] = some [r0, r1] ∧ r0.Nodup ∧ r1.Nodup ∧
+      (r0 ++ r1).Perm (List.range n) ∧
+      (∀ i, i ∈ r0 ↔ (i < n ∧ i % 3 = 0)) ∧ (∀ i, i ∈ r1 ↔ (i < n ∧ i % 3 ≠ 0)) := by
+  refine ⟨(List.range n).filter (fun i => i % 3 == 0), (List.range n).filter (fun i => !(i % 3 == 0)), ?_,
+    List.Nodup.filter _ List.nodup_range, List.Nodup.filter _ List.nodup_range, List.filter_append_perm _ _, ?_, ?_⟩
+  · have r1 : evalRow n (0, 0, 0, 3) = some ((List.range n).filter (fun i => i % 3 == 0)) := by
+      simp [evalRow, sliceIdx]
+    have r2 : evalRow n (2, 3, 0, 0) = some ((List.range n).filter (fun i => !(i % 3 == 0))) := by
+      simp [evalRow]
+    simp [evalGrid, allSome, r1, r2]
+  · intro i; simp [List.mem_filter]
+  · intro i; simp [List.mem_filter]
+
+/-- the quarter the spline disks are merged from: its face 0 has no point on the rim, faces 1 and 2 have (generated table row) -/
+theorem T_C19_spline_quarter :
+    (sketchRow? "QuarterSplineDisk").map (fun r => (List.range 3).map (touches r.2.1 r.2.2.2.2.2)) = some [false, true, true] := by
+  decide
+
+/-- non-vacuity / instances: the spline disks of the source take this branch (their face count exceeds the guard) -/
+example : (sketchFromSource "HalfSplineDisk").map (·.grid) = some [[0, 3], [1, 2, 4, 5]] ∧
+    (sketchFromSource "SplineDisk").map (·.grid) = some [[0, 3, 6, 9], [1, 2, 4, 5, 7, 8, 10, 11]] := by decide +kernel
+
+/-- `Sketch.chops` (indexes into `shape.operations`, along which `LoftedShape.chop` chops the radial and the tangential direction)
+    address operations that exist and lie outside the core, for every sketch class of the source -/
+def chopsOk (name : String) : Bool :=
+  match sketchFromSource name, lookup name CBV.Gen.c19Chops with
+  | some s, some ch => ch.all (fun axis => axis.all (fun i => decide (s.core.length ≤ i) && decide (i < s.n)))
+  | _, _ => false
+
+theorem T_C19_chops_address_shell :
+    ((CBV.Gen.c19GridSpecs.map (·.1)).filter (fun n => (sketchFromSource n).isSome)).all chopsOk = true := by decide +kernel
+
+example : 12 ≤ ((CBV.Gen.c19GridSpecs.map (·.1)).filter (fun n => (sketchFromSource n).isSome)).length := by decide +kernel
+
 /-! ### round sketches and shapes: `decide` on the tables generated from the current source -/
 
 /-! ### beyond the probe instances -/
@@ -272,7 +655,7 @@ theorem T_C19_annulus (n k : Nat) (hk : k < n) :
     simp only [List.getD_eq_getElem?_getD, List.getElem?_map, List.getElem?_range hk, Option.map_some, Option.getD_some,
       List.any_cons, List.contains_eq_mem, List.mem_map, List.mem_range]
     simp
-    exact Or.inr (Or.inl ⟨k, hk, rfl⟩)
+    exact Or.inr (Or.inl hk)
   · simp [annulusCells, hk]
   · simp only [annulusRim, List.mem_map, List.mem_range, not_exists, not_and]
     intro a _
